@@ -194,7 +194,38 @@ pub fn shape_types(max_n: usize, set: bool) -> Vec<(String, Ty)> {
     out
 }
 
+/// C03 shapes whose components are of REFERENCED types: a plain SEQUENCE (no OPTIONAL, no marker: its reader and
+/// writer need no presence bits of their own) and a named INTEGER, each mandatory or OPTIONAL, every marker position.
+pub fn shape_ref_types(max_n: usize, set: bool) -> Vec<(String, Ty)> {
+    let types = [Ty::r("Tplain"), Ty::r("Tsmall"), Ty::r("Tplain"), Ty::r("Tsmall")];
+    let mut out = vec![];
+    for n in 1..=max_n {
+        for code in 0..2usize.pow(n as u32) {
+            let kinds: Vec<usize> = (0..n).map(|i| (code >> i) & 1).collect();
+            for marker in std::iter::once(None).chain((0..=n).map(Some)) {
+                let comps: Vec<Comp> = kinds.iter().enumerate().map(|(i, k)| if *k == 0 { Comp::new(&format!("f{i}"), types[i].clone()) } else { Comp::new(&format!("f{i}"), types[i].clone()).opt() }).collect();
+                let kname: String = kinds.iter().map(|k| ["m", "o"][*k]).collect();
+                let mname = match marker {
+                    None => "n".to_string(),
+                    Some(k) => format!("e{k}"),
+                };
+                out.push((format!("T{}{n}{kname}{mname}", if set { "q" } else { "r" }), Ty::Seq { set, comps, ext_after: marker }));
+            }
+        }
+    }
+    out
+}
+
 fn shape_modules(out: &mut Vec<ZooModule>) {
+    for (types, prefix, quick) in [(shape_ref_types(3, false), "shrq", true), (shape_ref_types(2, true), "shqq", true), (shape_ref_types(4, false).into_iter().filter(|(_, t)| matches!(t, Ty::Seq { comps, .. } if comps.len() == 4)).collect(), "shr4t", false)] {
+        for (ci, ch) in types.chunks(120).enumerate() {
+            let mut m = Module::new(&format!("Z{prefix}{ci}")).def("Tplain", Ty::seq(vec![Comp::new("p", Ty::int_r(0, 7)), Comp::new("q", Ty::Bool)])).def("Tsmall", Ty::int_r(0, 255));
+            for (n, t) in ch {
+                m = m.def(n, t.clone());
+            }
+            out.push(ZooModule { id: format!("{prefix}{ci}"), group: "shape", quick, module: m });
+        }
+    }
     let chunk = |types: Vec<(String, Ty)>, prefix: &str, group: &'static str, quick: bool, out: &mut Vec<ZooModule>| {
         for (ci, ch) in types.chunks(120).enumerate() {
             let mut m = Module::new(&format!("Z{prefix}{ci}"));
@@ -283,6 +314,39 @@ fn container_modules(out: &mut Vec<ZooModule>) {
         // an inline element type of a top-level list has its own name since 736ee19
         .def("Tsoinlenum", Ty::seq_of(Size::Range(0, Some(3), false), Ty::enum_n(3)))
         .def("Tsoinlseq", Ty::seq_of(Size::Any, Ty::seq(vec![Comp::new("a", Ty::Bool), Comp::new("b", Ty::int_r(0, 7)).opt()])))
+        // a SET with explicit tags whose extension additions have SMALLER tags than the root components:
+        // root components (canonical order) come first, the additions after them
+        .def(
+            "Tsetxt",
+            Ty::Seq {
+                set: true,
+                comps: vec![
+                    Comp::new("a", Ty::int_r(0, 7)).tagged(Tag::c(7)),
+                    Comp::new("b", Ty::Bool).tagged(Tag::c(5)),
+                    Comp::new("c", Ty::string(Charset::Utf8, Size::Any)).tagged(Tag::c(1)),
+                    Comp::new("d", Ty::int_r(0, 3)).tagged(Tag::c(2)).opt(),
+                ],
+                ext_after: Some(2),
+            },
+        )
+        // an extensible CHOICE whose extension alternatives have empty encodings (NULL, single-value INTEGER)
+        .def("Tchxnull", Ty::Choice { alts: vec![Alt::new("a", Ty::Bool), Alt::new("b", Ty::Null), Alt::new("c", Ty::int_r(7, 7)), Alt::new("d", Ty::int_r(0, 7))], ext_after: Some(1) })
+        // an extensible SEQUENCE / SET whose ROOT has mandatory components of referenced types: a plain SEQUENCE
+        // (no OPTIONAL, no marker), a named INTEGER and a named list
+        .def("Tplain", Ty::seq(vec![Comp::new("p", Ty::int_r(0, 7)), Comp::new("q", Ty::Bool)]))
+        .def("Tsmall", Ty::int_r(0, 255))
+        .def(
+            "Textref",
+            Ty::Seq {
+                set: false,
+                comps: vec![Comp::new("s", Ty::r("Tplain")), Comp::new("i", Ty::r("Tsmall")), Comp::new("o", Ty::Bool).opt(), Comp::new("x", Ty::Bool), Comp::new("y", Ty::int_r(0, 7)).opt()],
+                ext_after: Some(3),
+            },
+        )
+        .def(
+            "Textrefset",
+            Ty::Seq { set: true, comps: vec![Comp::new("i", Ty::r("Tsmall")), Comp::new("s", Ty::r("Tplain")), Comp::new("x", Ty::r("Tplain"))], ext_after: Some(2) },
+        )
         .def("Tref1", Ty::r("Tref2"))
         .def("Tref2", Ty::r("Tinner"))
         .def("Tinline", Ty::seq(vec![Comp::new("pick", Ty::choice(vec![Alt::new("i", Ty::int_r(0, 7)), Alt::new("s", ia5(Size::Fix(2, false)))])), Comp::new("en", Ty::enum_n(3)).opt(), Comp::new("sq", Ty::seq(vec![Comp::new("z", Ty::Bool)]))]))
